@@ -304,17 +304,18 @@ class _Geo:
         elif net["type"] == "denver":
             self.pts = G.node_points(G.denver())
         self.anchors: List[tuple] = []
+        self.lat0, self.lon0 = net.get("origin") or (LAT0, LON0)
 
     def fresh(self):
         r = self.rnd
         if self.spurs and r.random() < 0.5:
             # at the end of a driveway (within a metre or two): the last link of a route to it is a very short one
             la, lo = r.choice(self.spurs)
-            return (round(la + r.uniform(-1e-5, 1e-5), 6), round(lo + r.uniform(-1e-5, 1e-5), 6))
+            return (round(la + r.uniform(-1e-5, 1e-5), 6), round(G.wrap_lon(lo + r.uniform(-1e-5, 1e-5)), 6))
         if self.pts:
             la, lo = r.choice(self.pts)
-            return (round(la + r.uniform(-3e-4, 3e-4), 6), round(lo + r.uniform(-3e-4, 3e-4), 6))
-        return (round(LAT0 + r.uniform(-self.spread, self.spread), 6), round(LON0 + r.uniform(-self.spread, self.spread), 6))
+            return (round(la + r.uniform(-3e-4, 3e-4), 6), round(G.wrap_lon(lo + r.uniform(-3e-4, 3e-4)), 6))
+        return (round(self.lat0 + r.uniform(-self.spread, self.spread), 6), round(G.wrap_lon(self.lon0 + r.uniform(-self.spread, self.spread)), 6))
 
     def point(self, colocate: float = 0.0):
         if self.anchors and self.rnd.random() < colocate:
@@ -355,10 +356,17 @@ def random_spec(seed: int, profile: Optional[Dict[str, Any]] = None) -> Dict[str
             net["default_speed_kmph"] = rnd.choice([10.0, 25.0, 90.0])
         if isinstance(P.get("grid"), dict):
             net.update(P["grid"])
+        if "origin" not in net and random.Random(seed * 31 + 5).random() < P.get("other_places", 0.2):
+            # a town somewhere else on the globe (stream of its own: the other draws stay what they were)
+            net["origin"] = list(random.Random(seed * 31 + 6).choice(G.PLACES))
+        if "latlon_keys" not in net and random.Random(seed * 31 + 7).random() < 0.35:
+            net["latlon_keys"] = True  # junction coordinates under "lat"/"lon" instead of "y"/"x"
     elif nt == "denver":
         net = {"type": "denver"}
     else:
         net = {"type": "euclidean"}
+        if random.Random(seed * 31 + 5).random() < P.get("other_places", 0.2):
+            net["origin"] = list(random.Random(seed * 31 + 6).choice(G.PLACES))
         if P.get("euclidean_default_speed") and rnd.random() < P["euclidean_default_speed"]:
             net["default_speed_kmph"] = rnd.choice([25.0, 30.0, 60.0])  # documented key; the straight-line network drives at 40 km/h whatever it says
     geo = _Geo(rnd, net, P["spread"])
@@ -447,7 +455,7 @@ def random_spec(seed: int, profile: Optional[Dict[str, Any]] = None) -> Dict[str
             sp = p
             if P.get("detached_base_station") and rnd.random() < P["detached_base_station"]:
                 # the depot's plugs are entered under a neighbouring address (nothing ties the two rows' coordinates together)
-                sp = geo.anchor((round(p[0] + rnd.choice([-1, 1]) * rnd.uniform(3e-4, 3e-3), 6), round(p[1] + rnd.choice([-1, 1]) * rnd.uniform(3e-4, 3e-3), 6)))
+                sp = geo.anchor((round(p[0] + rnd.choice([-1, 1]) * rnd.uniform(3e-4, 3e-3), 6), round(G.wrap_lon(p[1] + rnd.choice([-1, 1]) * rnd.uniform(3e-4, 3e-3)), 6)))
             stations.append({"id": st, "lat": sp[0], "lon": sp[1], "plugs": plugs})
         bases.append({"id": f"b{i}", "lat": p[0], "lon": p[1], "station": st, "stalls": rnd.choice(P["stalls"])})
     # --- schedules and vehicles
@@ -620,7 +628,8 @@ def random_spec(seed: int, profile: Optional[Dict[str, Any]] = None) -> Dict[str
         "bases": bases,
         "requests": requests,
         "prices": prices,
-        "rate": rnd.choice([None, [2.2, 1.6, 5.0], [0.0, 3.0, 1.0]]),
+        # (the last draw of the stream) fares: defaults, dollars, per-mile only, a currency with large numbers (won)
+        "rate": rnd.choice([None, [2.2, 1.6, 5.0], [0.0, 3.0, 1.0], [4800.0, 1600.0, 4800.0]]),
         "schedules": schedules or None,
         "fleets": fleets,
         "mechatronics": mech,
